@@ -72,9 +72,10 @@ class VFSZip(VFS_Real):
             self.save_cache()
             return
 
-        if zipfile_mtime > cache_mtime:
-            # The zipfile has been modified since the cache was generated,
-            # rebuild the cache.
+        if zipfile_mtime > cache_mtime or not self.chain.isfile(cache_filename):
+            # The zipfile has been modified since the cache was generated
+            # (or what carries the cache's name is not a file): rebuild the
+            # cache.
             self.populate_cache()
             self.save_cache()
             return
